@@ -46,4 +46,31 @@ theorem inv_flow {T : Nat} {s : St} (b : Bool) (hi : Inv T s) : Inv T { s with o
   obtain ⟨h1, h2, h3, h4, h5, h6, h7, h8, h9, h10, h11, h12, h13⟩ := hi
   constructor <;> assumption
 
+/-- the monitor's invariant does not mention inbound flow control -/
+theorem inv_inflow {T : Nat} {s : St} (l : List Nat) (b : Bool) (hi : Inv T s) :
+    Inv T { s with inPaused := l, readPaused := b } := by
+  obtain ⟨h1, h2, h3, h4, h5, h6, h7, h8, h9, h10, h11, h12, h13⟩ := hi
+  constructor <;> assumption
+
+theorem inv_subPause {T : Nat} {s : St} (k : Nat) (hi : Inv T s) : Inv T (subPause k s) := by
+  simp only [subPause]
+  split
+  · exact inv_inflow _ _ hi
+  · exact inv_inflow _ s.readPaused hi
+
+theorem inv_subResume {T : Nat} {s : St} (k : Nat) (hi : Inv T s) : Inv T (subResume k s) := by
+  simp only [subResume]
+  split
+  · exact inv_inflow _ _ hi
+  · exact inv_inflow _ s.readPaused hi
+
+@[simp] theorem subPause_drops (k : Nat) (s : St) : (subPause k s).drops = s.drops := by
+  simp only [subPause]; split <;> rfl
+@[simp] theorem subResume_drops (k : Nat) (s : St) : (subResume k s).drops = s.drops := by
+  simp only [subResume]; split <;> rfl
+@[simp] theorem subPause_pings (k : Nat) (s : St) : (subPause k s).pings = s.pings := by
+  simp only [subPause]; split <;> rfl
+@[simp] theorem subResume_pings (k : Nat) (s : St) : (subResume k s).pings = s.pings := by
+  simp only [subResume]; split <;> rfl
+
 end WV.Proofs.C16
